@@ -5,6 +5,7 @@ import (
 	"time"
 
 	"github.com/mattn/go-runewidth"
+	"github.com/vbauerster/mpb/v8/internal/verifhook"
 )
 
 const (
@@ -145,8 +146,10 @@ func (wc WC) Format(str string) (string, int) {
 		width++
 	}
 	if (wc.C & DSyncWidth) != 0 {
+		verifhook.Event(verifhook.WcSent, wc.wsync, width)
 		wc.wsync <- width
 		width = <-wc.wsync
+		verifhook.Event(verifhook.WcGot, wc.wsync, width)
 	}
 	return wc.fill(str, width), width
 }
